@@ -99,3 +99,362 @@ def check_C20(F, tier, t0):
         'Per filter value, inductive proof over all shapes of the two recursively rebuilt children that retain(True) is implied by f, retain(False) implies f, retain(Any) is f '
         'itself; every rebuilt node is order-respecting (mk_choice obligations) and support(result) is within support(f). Reducedness is inherited from mk_choice (C02).',
         TRUSTED, ['operand is an ordered diagram'], './check C20')
+
+# =================================================================================================
+import spec_parser, spec_set, engine_e, engine_g, engine_p, engine_t, engine_a, engine_x, engine_l
+from spec_parser import EVF, RVF, FRF
+from engine_p import Discharger, SITE_TABLE
+
+def make_engine(F):            # (re-definition: full set of specs)
+    E = Engine(F)
+    spec_bdd.install(E); spec_bdd.install_structure(E)
+    spec_parser.install(E)
+    spec_bdd.install_fp(E)
+    spec_set.install(E)
+    return E
+
+def guarded(R, what, fn, *args):
+    """run a rule; an internal error of the checker is reported as UNDECIDABLE (fail closed), never swallowed"""
+    try:
+        return fn(*args)
+    except Undecidable as u:
+        R.violation('%s / UNDECIDABLE / %s' % (what, u.construct[:80]), 'UNDECIDABLE', 'cannot analyse (%s): %s' % (what, u.construct), u.loc)
+    except Exception as ex:
+        import traceback
+        R.violation('%s / CHECKER-ERROR / %s' % (what, type(ex).__name__), 'UNDECIDABLE', 'rule %s could not be evaluated on this tree: %s: %s' % (what, type(ex).__name__, ex),
+                    detail=traceback.format_exc()[-1500:])
+
+STRUCT = 'clause-level static check; decides the named structural clauses, which are necessary conditions of the property, not the behaviour as a whole'
+
+def check_C01(F, tier, t0):
+    R = Report('C01')
+    E = make_engine(F)
+    guarded(R, 'S eval_recursive', run_S, R, E, [EVF])
+    guarded(R, 'T tokens', engine_t.rule_tokens, F, R, 'all')
+    guarded(R, 'T operators', engine_t.rule_operator_tables, F, R)
+    R.floor('functions', 1); R.floor('worlds', 25); R.floor('T:symbol-spellings', 20); R.floor('T:keyword-spellings', 23)
+    R.floor('T:binary-operator-rows', 8); R.floor('T:counting-operator-rows', 5); R.floor('T:fixed-point-rows', 2)
+    return finish(R, 'other', tier, t0,
+        'Decides the dispatch chain spelling -> token -> operator -> BDDEnv operation -> truth function for every construct: the symbol/keyword tables of tokenize and the '
+        'operator tables of the parser are extracted from constant matches and compared with the documented table; eval_recursive is checked arm by arm (engine S, all 11 '
+        'in-scope syntax-node kinds and every operator value) to return the documented function of the values of its children, argument order included; no lossy integer '
+        'conversion lies between a parsed constant and the bound handed to the counting operations. The semantic content of the operations themselves is C03/C04/C05/C06, '
+        'the tree the parser builds is C08. Not decided: regex-engine matching of arbitrary text, fixed-point convergence, {reference} nodes.',
+        TRUSTED, ['README operator table and property statement are the oracle for the reference tables'], './check C01')
+
+def check_C02(F, tier, t0):
+    R = Report('C02')
+    E = make_engine(F)
+    fns = ['clean', 'and', 'or', 'not', 'var', 'exists_impl', 'retain_choice_bottom_up']
+    res = guarded(R, 'S/O node-building functions', run_S, R, E, fns + ['simplify', 'mk_choice', 'mk_const', 'find', 'new']) or {}
+    R.count('mk_choice-call-sites', static_mk_choice_sites(F.lib(), [n.split('::')[-1] for n in F.lib().thir if n.startswith(spec_bdd.B) and '{closure' not in n]))
+    guarded(R, 'E1', engine_e.rule_E1, F, R)
+    guarded(R, 'E5', engine_e.rule_E5_events, R, res)
+    guarded(R, 'H', engine_e.rule_H, F, R)
+    # functions that do not call mk_choice must not build nodes any other way: covered by E1 (constructor sites) workspace-wide
+    R.floor('mk_choice-call-sites', 13); R.floor('E1:Choice-constructor-sites', 2); R.floor('functions', 12); R.floor('H:impl-bodies', 4)
+    return finish(R, 'other', tier, t0,
+        'Inductive invariant "every diagram handed out is ordered and reduced", decided as its code-dependent premises: (O) every one of the mk_choice call sites is '
+        'order-respecting under every total pre-order of the symbols consistent with the guards of its path (engine S/O worlds); (R) all nodes are born in mk_choice, '
+        'after simplify, whose test is structural equality of the two children, and a hit in the unique table is structurally the key (E1, E2); (H) Eq/Ord/Hash of '
+        'NamedSymbol read the same key and the diagram type uses derived structural Eq/Hash. With Bryant\'s canonicity theorem these give "equal iff same function". '
+        'Not decided: the theorem itself.',
+        TRUSTED, ['Bryant: ordered + reduced => canonical (M4)'], './check C02')
+
+def check_C05(F, tier, t0):
+    R = Report('C05')
+    E = make_engine(F)
+    guarded(R, 'S counting', run_S, R, E, spec_bdd.BDD_SCOPE['C05'])
+    # language level: the CountableConst / CountableVariable arms of the evaluator, the operator table, the cast rule
+    def lang():
+        res = E.explore(EVF)
+        n = 0
+        for (I, params, r, obls) in res:
+            v = spec_parser.variant_of(I, params[1].term)
+            if v not in ('CountableConst', 'CountableVariable'): continue
+            for o in obls:
+                n += 1
+                ident = '%s | %s | %s' % (EVF, short_label(o.label), o.world)
+                R.obligation(o.ok, ident)
+                if not o.ok:
+                    R.violation('%s / %s / world[%s]' % (EVF, short_label(o.label), o.world), short_label(o.label).split(':')[0], '%s fails in abstract world [%s]' % (o.label, o.world), o.loc, o.detail)
+        R.count('evaluator-counting-obligations', n)
+    guarded(R, 'S eval_recursive (counting arms)', lang)
+    guarded(R, 'T counting operators', engine_t.rule_operator_tables, F, R, ('countop',))
+    guarded(R, 'T tokens', engine_t.rule_tokens, F, R, {'Eq', 'ImpliesInv', 'Geq', 'Lt', 'Gt'})
+    R.floor('functions', 12); R.floor('evaluator-counting-obligations', 10); R.floor('T:counting-operator-rows', 5)
+    return finish(R, 'proof', tier, t0,
+        'Inductive proof (list induction, linear-integer normal forms decided exactly per linear form) that cmp_count(bs,n,cmp) = cmp(n - #true(bs)), aln/amn/exn = '
+        '[#true >= / <= / = n], cmp_count_compare(a,b,n,cmp) = cmp(b, n + #true(a)) and the five list-versus-list comparisons, for arbitrary operand functions, repeated '
+        'operands, the empty list and every integer n (mathematical integers: the property excludes n +/- len overflowing). Language level: the evaluator maps '
+        '<=,>=,=,<,> to at-most/at-least/exactly with offsets -1/+1 for the strict forms, the tokens map to those operators, and the constant reaches the bound without a '
+        'lossy conversion (clamping conversions are accepted: no list has 2^63 true operands).',
+        TRUSTED, ['integers are treated as mathematical integers (property precondition: no i64 overflow of n +/- len)'], './check C05')
+
+def check_C06(F, tier, t0):
+    R = Report('C06')
+    E = make_engine(F)
+    guarded(R, 'FP loop shape', run_S, R, E, ['fp'])
+    guarded(R, 'S replace_var', run_S, R, E, [RVF])
+    def fixarm():
+        res = E.explore(EVF)
+        n = 0
+        for (I, params, r, obls) in res:
+            v = spec_parser.variant_of(I, params[1].term)
+            if v not in ('FixedPoint', 'Subtree'): continue
+            for o in obls:
+                n += 1
+                R.obligation(o.ok, '%s | %s | %s' % (EVF, short_label(o.label), o.world))
+                if not o.ok:
+                    R.violation('%s / %s / world[%s]' % (EVF, short_label(o.label), o.world), short_label(o.label).split(':')[0], '%s fails in abstract world [%s]' % (o.label, o.world), o.loc, o.detail)
+        R.count('evaluator-fixed-point-obligations', n)
+    guarded(R, 'S eval_recursive (FixedPoint / Subtree arms)', fixarm)
+    guarded(R, 'T fixed point', engine_t.rule_operator_tables, F, R, ('fixpoint',))
+    guarded(R, 'T tokens', engine_t.rule_tokens, F, R, {'GFP', 'LFP'})
+    guarded(R, 'A3', engine_a.rule_A3, F, R)
+    R.floor('functions', 2); R.floor('evaluator-fixed-point-obligations', 4); R.floor('T:fixed-point-rows', 2)
+    return finish(R, 'other', tier, t0,
+        'Decides the code-dependent premises of Kleene iteration: (a) fp\'s loop, by one symbolic iteration from an arbitrary state: the state starts as the argument, the '
+        'loop exits only when t(s) is structurally s, otherwise the next state is t(s), and the value returned is the state t maps to itself; (b) gfp/nu start from true, '
+        'lfp/mu from false (token table, parser dispatch, constructor provenance, evaluator); (c) the evaluator\'s transformer is y -> eval(body[X := Subtree(y)]) and Subtree '
+        'evaluates to the stored diagram; (d) replace_var is the capture-free homomorphic substitution on all in-scope constructors, stopping under a quantifier list '
+        'containing the name or an inner fixed point on the same name. Not decided: least/greatest-ness and termination, which follow from Knaster-Tarski/Kleene on the '
+        'finite lattice given monotonicity and C02 - mathematics with no code content left once (a)-(d) hold.',
+        TRUSTED, ['monotone bodies (property precondition); Kleene fixed-point theorem on a finite lattice'], './check C06')
+
+def check_C07(F, tier, t0):
+    R = Report('C07')
+    E = make_engine(F)
+    guarded(R, 'S model/infer', run_S, R, E, spec_bdd.BDD_SCOPE['C07'])
+    guarded(R, 'X4 model', engine_x.rule_X4, F, R, ('model',))
+    R.floor('functions', 2); R.floor('worlds', 9); R.floor('X4:model-before-printing', 1)
+    return finish(R, 'other', tier, t0,
+        'Engine S, inductively over all shapes of the node and of the two recursive results: model(a) implies a pointwise; a leaf is returned unchanged; the False result is '
+        'returned only when the models of both children are False; every other result conjoins exactly one literal of the node\'s variable with the recursive model that was '
+        'tested to be non-False (cube shape, support within support(a)); infer(a,v) answers (is_leaf(ff), ff is True) for ff = implies(a, var v). CLI: with -m the result is '
+        'replaced by model(result) after evaluation and before every printer. Not decided: "a non-False reduced diagram is satisfiable" (canonicity, M4).',
+        TRUSTED, ['Bryant canonicity (M4) for "False iff unsatisfiable"'], './check C07')
+
+def check_C08(F, tier, t0):
+    R = Report('C08')
+    guarded(R, 'A1', engine_a.rule_A1, F, R)
+    guarded(R, 'A helpers', engine_a.rule_helpers, F, R)
+    guarded(R, 'A2', engine_a.rule_A2, F, R)
+    guarded(R, 'A3', engine_a.rule_A3, F, R)
+    guarded(R, 'T tokens', engine_t.rule_tokens, F, R, 'all')
+    guarded(R, 'T operators', engine_t.rule_operator_tables, F, R)
+    guarded(R, 'T regex', engine_t.rule_regex, F, R)
+    R.floor('A1:consuming-parse-functions', 17); R.floor('A1:calls-to-consuming-functions', 50); R.floor('A2:parse-functions-walked', 15)
+    R.floor('A3:constructor-paths', 30); R.floor('A3:constructors-expected', 13); R.floor('T:regex-symbols', 20); R.floor('T:regex-groups', 6)
+    return finish(R, 'other', tier, t0,
+        'Grammar-shape clauses: (A1) no Result of a token-consuming parse function is inspected instead of propagated (a failed attempt is never rewound, so this is necessary '
+        'for "never accepted with some other meaning"); (A2) the right-hand sides of <formula>, <sub>, <simple> extracted from the parse functions (paths enumerated from THIR, '
+        'loops as stars, look-ahead tests as labels) are language-equivalent to the reference grammar, decided by product construction, not by bounded enumeration; '
+        '(A3) every syntax-node constructor receives the parsed pieces the grammar prescribes (right-associativity, negation scope, body extents, argument order); '
+        '(T) symbol/keyword/operator tables equal the documented ones; the tokenizer pattern lists longer symbols before their prefixes, numbers before identifiers, and its '
+        'groups/alternatives agree with what tokenize handles. Not decided: character-level behaviour of the regex engine on arbitrary Unicode text.',
+        TRUSTED, ['reference grammar in engine_a.reference_grammar() transcribed from README + property statement', 'regex crate: leftmost-first alternation semantics'], './check C08')
+
+def check_C09(F, tier, t0):
+    R = Report('C09')
+    E = make_engine(F)
+    guarded(R, 'S var_is_free', run_S, R, E, [FRF])
+    guarded(R, 'S/O quantifier support', run_S, R, E, ['exists_impl', 'exists', 'all'])
+    guarded(R, 'X4 vars', engine_x.rule_X4, F, R, ('vars',))
+    guarded(R, 'X3 order', engine_x.rule_X3, F, R)
+    R.floor('functions', 4); R.floor('worlds', 20); R.floor('X4:extract_vars', 1); R.floor('X4:free_vars-fill', 1)
+    return finish(R, 'other', tier, t0,
+        'var_is_free is checked against the textbook definition for every in-scope constructor (binders of quantifiers and fixed points shadow; disjunction over children '
+        'otherwise); vars = every Var token once, sorted by id; free_vars = exactly those v of vars with var_is_free(whole formula, v), in that order; the quantified symbol '
+        'never occurs in exists_impl\'s result and exists/all are its fold/dual, so bound names never leak into a result; table columns are positions in free_vars. '
+        'Not decided: formulas with {reference} nodes (excluded by the property).',
+        TRUSTED, [], './check C09')
+
+def check_C10(F, tier, t0):
+    R = Report('C10')
+    guarded(R, 'X1', engine_x.rule_X1_printers, F, R)
+    guarded(R, 'X2', engine_x.rule_X2, F, R)
+    guarded(R, 'X3', engine_x.rule_X3, F, R)
+    guarded(R, 'X4', engine_x.rule_X4, F, R, ('parse', 'model', 'retain'))
+    guarded(R, 'T filter spellings', engine_t.rule_tte, F, R)
+    R.floor('X1:recursive-descent-sites', 4); R.floor('X2:row-filter-cases', 6); R.floor('X3:index-sites', 8); R.floor('T:filter-spelling-rows', 3)
+    return finish(R, 'other', tier, t0,
+        'Clauses: branch polarity of both printers (true-branch records True); the row predicate over filter x leaf (printed iff filter=Any or filter=leaf) and -v printing '
+        'exactly at the True leaf; index domains of every column access (to_free_index yields a position in free_vars, which is sorted by id; every index stays below the '
+        'length of the sequence it indexes); one parser call fed by all three input channels; model/retain applied before every printer; filter spellings disjoint and on '
+        'the right variant. With "rows are the root-to-leaf paths of an ordered diagram" (C02) these give disjointness and coverage. Not decided: text layout, clap/argfile/wild.',
+        TRUSTED, [], './check C10')
+
+def check_C11(F, tier, t0):
+    R = Report('C11')
+    guarded(R, 'X5', engine_x.rule_X5, F, R)
+    guarded(R, 'X3', engine_x.rule_X3, F, R)
+    guarded(R, 'X4', engine_x.rule_X4, F, R, ('order', 'export'))
+    guarded(R, 'H', engine_e.rule_H, F, R)
+    R.floor('X5:id-registration-sites', 2); R.floor('X4:ordering-flow', 1); R.floor('X4:export-ordering', 1)
+    return finish(R, 'other', tier, t0,
+        'Clauses: counter invariant of tokenize (after every registration the fresh-id counter exceeds every registered id, names are looked up before a fresh id is taken); '
+        'column look-up by id in the id-sorted free_vars (no position/id confusion); the -o file flows through tokenize + extract_vars into the parser\'s ordering argument; '
+        '-r prints vars sorted by id; NamedSymbol orders by id. The semantic core - that meaning does not depend on the order - is carried by C01-C05, C07, C20, whose '
+        'obligations are discharged for an arbitrary total order on an arbitrary symbol type. Not decided: that -r output re-tokenises to the same names (regex engine).',
+        TRUSTED, [], './check C11')
+
+def check_C12(F, tier, t0):
+    R = Report('C12')
+    E = make_engine(F)
+    # G first: RefCell panics
+    conflict_cells = set()
+    def g():
+        for (key, rule, msg, loc, cell) in engine_g.guard_regions(F, R):
+            conflict_cells.add(cell)
+            R.violation(key, rule, msg, loc)
+        engine_g.key_type_impls_clean(F, R)
+    guarded(R, 'G', g)
+    def p():
+        reach = engine_p.reachable(F, engine_p.ENTRIES)
+        R.count('P:reachable-functions', len(reach))
+        sites = engine_p.inventory(F, reach)
+        D = Discharger(F, E, conflict_cells, reach)
+        for s in sites:
+            R.count('P:sites')
+            reason = None
+            for rule in (D.R0, D.R11, D.R8, D.R4, D.R10, D.R6, D.RS):
+                try:
+                    reason = rule(s)
+                except Exception as ex:
+                    reason = None
+                if reason: break
+            if reason is None and s.what.startswith(('Index', 'IndexMut', 'BoundsCheck')) and s.fn in ('rsbdd::print_truth_table_recursive', 'rsbdd::print_true_vars_recursive', 'rsbdd::print_sized_line'):
+                if not x3_bad: reason = 'R5: index-domain typing X3 proves every index into the truth-table sequences below their length'
+            if reason is None and s.what == 'expect' and s.fn.endswith('GraphWalk>::edges') and 'SymbolicParseTree' in s.fn:
+                if not x6_bad: reason = 'R12: position(..) finds every child because nodes_recursive visits exactly the fields edges() asks for (X6)'
+            if reason is None: reason = engine_p.site_table_reason(s)
+            R.obligation(reason is not None, s.key)
+            if reason:
+                R.count('P:discharged-by-' + reason.split(':')[0].split(' ')[0])
+                R.sample({'site': s.key, 'loc': s.loc, 'discharged by': reason})
+            else:
+                R.violation(s.key, 'P', 'panic-capable site (%s) reachable from the parser / evaluator / CLI is not discharged by any rule' % s.what, s.loc)
+    # X3 / X6 are used as discharge rules R5 / R12; evaluate them into a scratch report
+    scratch = Report('scratch')
+    guarded(scratch, 'X3', engine_x.rule_X3, F, scratch)
+    x3_bad = [v for v in scratch.violations]
+    scratch6 = Report('scratch')
+    guarded(scratch6, 'X6', engine_x.rule_X6, F, scratch6)
+    x6_bad = [v for v in scratch6.violations]
+    guarded(R, 'P', p)
+    R.samples = R.samples[:12]
+    R.floor('P:sites', 40); R.floor('P:reachable-functions', 80); R.floor('G:guards', 10)
+    return finish(R, 'other', tier, t0,
+        'Exhaustive inventory, from MIR, of the panic-capable sites (overflow / bounds / division asserts, unwrap/expect, Index, RefCell borrows, explicit panics) in every '
+        'function reachable from tokenize, ParsedFormula::new/eval and the binary\'s main (callbacks of dot/fmt traits included); each site must be discharged by a named '
+        'rule - constant operand, engine S proving the panicking arm dead in all abstract worlds, dominance by an emptiness test, caller-side shape refinement, absence of a '
+        'producer, counters bounded by a collection, index-domain typing, engine G for RefCell - or by a one-site entry of the site table with its reason; anything else is a '
+        'violation, so a new unwrap/index/unchecked arithmetic is reported by construction. Not decided: stack exhaustion (the property bounds nesting), allocation failure, '
+        'panics inside dependencies beyond their documented contract, write errors on a closed stdout, non-convergent fixed points.',
+        TRUSTED + ['site table in engine_p.SITE_TABLE (%d named sites with reasons)' % len(SITE_TABLE)], ['API callers pass ordering ids below usize::MAX'], './check C12')
+
+def check_C13(F, tier, t0):
+    R = Report('C13')
+    E = make_engine(F)
+    res = guarded(R, 'S structure', run_S, R, E, ['simplify', 'mk_choice', 'mk_const', 'find', 'new', 'clean']) or {}
+    ops = [n.split('::')[-1] for n in F.lib().thir if n.startswith(spec_bdd.B) and '{closure' not in n and n.split('::')[-1] not in ('size', 'duplicates', 'fp', 'new', 'mk_choice', 'simplify', 'mk_const', 'find', 'clean')]
+    res2 = guarded(R, 'S provenance', run_S, Report('scratch'), E, ops) or {}
+    guarded(R, 'E5', engine_e.rule_E5_events, R, res2)
+    guarded(R, 'E1', engine_e.rule_E1, F, R)
+    guarded(R, 'E3', engine_e.rule_E3, F, R)
+    guarded(R, 'E3 flow', engine_e.rule_E3_field_flow, F, R)
+    guarded(R, 'E4', engine_e.rule_E4, F, R)
+    guarded(R, 'E6', engine_e.rule_E6, F, R)
+    def g():
+        for (key, rule, msg, loc, cell) in engine_g.guard_regions(F, R):
+            if cell[0] == 'rsbdd::bdd::BDDEnv': R.violation(key, rule, msg, loc)
+        engine_g.key_type_impls_clean(F, R)
+    guarded(R, 'G2', g)
+    R.floor('E1:Choice-constructor-sites', 2); R.floor('E3:table.insert', 3); R.floor('E3:nodes.borrow_mut', 1); R.floor('E3:nodes.borrow', 4)
+    R.floor('E4:Rc<BDD>::new-sites', 5); R.floor('E5:functions', 20); R.floor('E6:functions-reachable-from-ops', 40); R.floor('G2:key-impls', 6)
+    return finish(R, 'other', tier, t0,
+        'Effect / ownership rules over the resolved program: the unique table has one writer (mk_choice; new() seeds exactly the two leaves), every insert stores key == *value, '
+        'a look-up hit is returned as is, nothing removes or replaces entries, the table cell never escapes; diagram nodes are allocated only in new/mk_choice/the From '
+        'conversion, are never uniquely borrowed, are Freeze and contain no interior mutability at any depth; every BDDEnv operation builds its result only from arguments, '
+        'their sub-nodes, leaves and other operations (no fresh allocation); nothing reachable from an operation or the evaluator reads hidden mutable state; no operation '
+        're-enters the table while it is mutably borrowed. These are the static content of "history never changes results, nodes are shared and stay valid". '
+        'Not decided: pointer-identity consequences inside the dot crate.',
+        TRUSTED, ['std HashMap / Rc / RefCell contracts'], './check C13')
+
+def check_C14(F, tier, t0):
+    R = Report('C14')
+    guarded(R, 'X1 dot', engine_x.rule_X1_dot, F, R)
+    guarded(R, 'X2', engine_x.rule_X2, F, R)
+    guarded(R, 'X6', engine_x.rule_X6, F, R)
+    R.floor('X1:edge-tuples', 2); R.floor('X2:dot-leaf-cases', 6); R.floor('X2:dot-edge-cases', 18); R.floor('X6:variants', 12); R.floor('X6:recursive-fields', 11)
+    return finish(R, 'other', tier, t0,
+        'Sibling-agreement clauses: T/F edge flags and labels follow the true/false branch; leaf ids and labels sit on the matching variants; for every filter x child kind an '
+        'edge into a leaf is emitted iff that leaf is declared, and a leaf is declared iff filter=Any or filter=leaf; for each of the 12 syntax-node kinds the node list visits '
+        'exactly the recursive fields for which edges are emitted, edge labels of one kind are distinct, and every kind has its own label arm. '
+        'Not decided: DOT escaping/rendering (dot crate), itertools::unique.',
+        TRUSTED, [], './check C14')
+
+def check_C15(F, tier, t0):
+    R = Report('C15')
+    guarded(R, 'L-W', engine_l.rule_width, F, R, 'n_queens_gen')
+    R.floor('L-W:arithmetic-sites', 12); R.floor('L-W:ranges', 8)
+    return finish(R, 'other', tier, t0,
+        'One thin necessary clause only: no cell-index arithmetic and no loop range of n_queens_gen is carried out in an integer type narrower than 32 bits (indices reach '
+        'n*n-1). NOT decided - and not claimed: that the six loops enumerate exactly the rows, columns and diagonals for every n; that is quadratic index arithmetic over '
+        'all n, for which no sound static rule is in reach here.',
+        TRUSTED, [], './check C15')
+
+def check_C16(F, tier, t0):
+    R = Report('C16')
+    guarded(R, 'L', engine_l.rule_max_clique, F, R)
+    R.floor('L:complement-push-sites', 2); R.floor('L:truth-table-rows', 16); R.floor('L:vertex-list-uses', 3)
+    return finish(R, 'other', tier, t0,
+        'Clauses: the complement-edge guard as a truth table over {v1==v2, -u, E(v1,v2), E(v2,v1), already-emitted(v2,v1)} equals the specification (directed: constrained '
+        'unless the edge exists; undirected: unless either direction exists, once per unordered pair); v1,v2 both range over the vertex set; both copies of the constraints are '
+        'generated from the same list; --all replaces the maximality conjunct by true; binder list and both counting lists come from the vertex set. '
+        'Not decided: the fixed text of the emitted templates, CSV parsing.',
+        TRUSTED, [], './check C16')
+
+def check_C18(F, tier, t0):
+    R = Report('C18')
+    guarded(R, 'L', engine_l.rule_random_graph, F, R)
+    R.floor('L:refuse-not-truncate', 1); R.floor('L:candidate-push-sites', 2); R.floor('L:complete-count', 1); R.floor('L:truth-table-rows', 22)
+    return finish(R, 'other', tier, t0,
+        'Clauses: generate_graph returns Ok only with the checked slice candidates[0..E] and Err otherwise (refuse, never truncate; exactly E edges by the slice contract); '
+        'directed candidates are inserted iff i != j, undirected ones are taken from vertices[(i+1)..] (no self pair, each pair once); --complete requests V(V-1) resp. '
+        'V(V-1)/2 (polynomial normal form); --convert keeps an edge unless -u and its reverse is already present; the colouring product graph connects (v,c),(w,d) iff '
+        'v != w and (c != d or v,w not adjacent in either direction). Not decided: randomness of the shuffle, CSV parsing, the graph-theoretic reduction itself.',
+        TRUSTED, [], './check C18')
+
+def check_C19(F, tier, t0):
+    R = Report('C19')
+    E = make_engine(F)
+    E.merge_ifs = True
+    spec_set.mark_inline(E)
+    guarded(R, 'S set operations', run_S, R, E, spec_set.SET_FNS, spec_set.S_)
+    def aliased():
+        E.alias_params = (0, 1)
+        try:
+            sub = Report('alias')
+            run_S(sub, E, ['union', 'intersect', 'complement'], spec_set.S_)
+            for v in sub.violations: R.violation(v.key + ' [same set as both operands]', v.rule, v.msg + ' (run with the operand aliased to the receiver)', v.loc, v.detail)
+            R.obligations += sub.obligations; R.discharged += sub.discharged; R.idents |= set('alias ' + str(i) for i in sub.idents)
+            R.count('aliased-runs', 3)
+        finally:
+            E.alias_params = None
+    guarded(R, 'S aliased operands', aliased)
+    guarded(R, 'E7', engine_g.rule_E7, F, R)
+    def g():
+        for (key, rule, msg, loc, cell) in engine_g.guard_regions(F, R):
+            if cell[0] == 'rsbdd::set::BDDSet': R.violation(key, rule, msg, loc)
+    guarded(R, 'G1', g)
+    R.floor('functions', 7); R.floor('E7:query-methods', 1); R.floor('G:guards', 10); R.floor('aliased-runs', 3)
+    return finish(R, 'other', tier, t0,
+        'Signatures of the set operations by engine S on the tracked RefCell content: union/intersect/complement write the receiver\'s cell once with old-self or/and/and-not '
+        'old-other (also with the operand aliased to the receiver), never the operand\'s; insert ors in the minterm whose i-th literal is chosen by categorize(e,i) for i in '
+        '0..bits; empty/universe store the constants; contains returns the structural test (content and {e}) == {e}. Effects: a query method never writes the cell of the set '
+        'it is asked of (E7, receiver-sensitive through calls); no RefCell guard is alive across a write of a cell that may be the same one (G1: self-aliasing operands). '
+        'Membership agreement with a reference set under every history follows from these signatures and C02/C03. Not decided: injectivity of categorize beyond bit i '
+        'deciding literal i.',
+        TRUSTED, [], './check C19')
